@@ -10,7 +10,7 @@
     (which pending publication of which stage is attempted next; labels that are not enabled
     are skipped, so [ls] ranges over all interleavings). *)
 From WM Require Import Base.Prelude Message.Model Handler.RouterHandle Handler.RouterProofs
-     GoChannel.Sub GoChannel.SubProofs Pipeline.Model Pipeline.Proofs Pipeline.Final Pipeline.SubLink Corr.C01.
+     GoChannel.Sub GoChannel.SubProofs Pipeline.Model Pipeline.Proofs Pipeline.Final Pipeline.SubLink Corr.C01 Pipeline.Example.
 
 Section C01.
   Context {M : Type}.
@@ -51,6 +51,15 @@ Section C01.
     exists d, dlog st' = dlog st ++ [d] /\ d_stage d = s /\ d_msg d = m
               /\ (d_final d <> Acked -> In m (topic st' s)).
   Proof. exact (pending_until_acked hf eqbM eqbM_spec). Qed.
+
+  (** ... and it IS redelivered: a Nacked attempt is followed by another attempt of the same
+      message at the same stage or its publication is still pending; at quiescence every
+      Nacked attempt has been followed up *)
+  Theorem C01_redelivered_until_acked : forall k sc srcs ls,
+    let st := run k sc srcs ls in
+    (forall d, In d (unfollowed eqbM (dlog st)) -> In (d_msg d) (topic st (d_stage d)))
+    /\ (quiescentb k st = true -> redelivery_ok eqbM (dlog st) = true).
+  Proof. exact (redelivered_until_acked hf eqbM eqbM_spec). Qed.
 
   (** never lost: at every moment every expected arrival is at the final topic or has a
       pending ancestor at some topic *)
@@ -100,7 +109,8 @@ Section C01.
     let st := run k sc srcs ls in
     log_ok hf eqbM (dlog st) = true
     /\ sink_sound hf eqbM k srcs (topic st k) = true
-    /\ (quiescentb k st = true -> sink_complete hf eqbM k srcs (topic st k) = true).
+    /\ (quiescentb k st = true -> sink_complete hf eqbM k srcs (topic st k) = true)
+    /\ (quiescentb k st = true -> redelivery_ok eqbM (dlog st) = true).
   Proof. exact (model_accepted hf eqbM eqbM_spec). Qed.
 End C01.
 
@@ -129,6 +139,7 @@ Proof. exact no_duplicate_without_nack. Qed.
 Print Assumptions C01_nothing_invented.
 Print Assumptions C01_ack_only_after_next_accepted.
 Print Assumptions C01_pending_until_acked.
+Print Assumptions C01_redelivered_until_acked.
 Print Assumptions C01_never_lost.
 Print Assumptions C01_at_least_once.
 Print Assumptions C01_every_source_reaches_the_sink.
@@ -138,15 +149,10 @@ Print Assumptions C01_finite_scripts_are_fair.
 Print Assumptions C01_topic_attempt_loop.
 Print Assumptions C01_topic_resends_only_after_nack.
 
-(** non-vacuity: 2 stages, stage 0 fans out to 2; source messages 7 and 8; the first attempt of
-    stage 0 fails in Publish after the next topic accepted 1 of 2 outputs, the second attempt
-    of stage 1 panics.  Both sources arrive with both descendants, (7,[0]) arrives twice, and
-    the duplicate is exactly the budget of the publish-side fault. *)
-Definition ex_fans := [[2]; [1]].
-Definition ex_script := [[FPub 1 false]; [FNone; FPanic]].
-Definition ex_sched : list (plabel cm) :=
-  [(0, (7%N, [])); (1, (7%N, [0%N])); (0, (7%N, [])); (1, (7%N, [0%N])); (1, (7%N, [0%N]));
-   (1, (7%N, [1%N])); (0, (8%N, [])); (1, (8%N, [1%N])); (1, (8%N, [0%N]))].
+(** non-vacuity (Pipeline/Example.v): 2 stages, stage 0 fans out to 2; sources 7 and 8; the first
+    attempt of stage 0 fails in Publish after the next topic accepted 1 of 2 outputs, the second
+    attempt of stage 1 panics.  Both sources arrive with both descendants, (7,[0]) arrives twice,
+    and the duplicate is exactly the budget of the publish-side fault. *)
 Example C01_witness :
   let st := prun (chf ex_fans) cm_eqb rt_handle 2 (sc_of ex_script) (pinit [(7%N, []); (8%N, [])]) ex_sched in
   topic st 2 = [(7, [0; 0]); (7, [0; 0]); (7, [1; 0]); (8, [1; 0]); (8, [0; 0])]%N
@@ -156,4 +162,4 @@ Example C01_witness :
         (0, 2, Acked); (1, 4, Acked); (1, 5, Acked)]
   /\ dup_budget (chf ex_fans) 2 (dlog st) = 1
   /\ length (expected_sink (chf ex_fans) 2 [(7%N, []); (8%N, [])]) = 4.
-Proof. vm_compute. repeat split; reflexivity. Qed.
+Proof. exact c01_witness. Qed.
